@@ -62,7 +62,7 @@ class Baton:
                 self.turn = None
                 self.cv.notify_all()
 
-    def step(self, wid: int, timeout: float = 20.0) -> str:
+    def step(self, wid: int, timeout: float = 90.0) -> str:
         """let worker wid run until it parks again or finishes; returns 'parked:<tag>' | 'finished'"""
         with self.cv:
             if wid in self.finished:
